@@ -236,13 +236,26 @@ func runEngineCase(r *runner, flows []Flow, txns []Txn) {
 // filters carry (1) status_code lists in the order written (not ascending,
 // duplicates) and (2) upper-case letters in host labels / literal path segments,
 // incl. two flows that differ only in letter case; every listed and unlisted
-// status, both spellings of every URL.
+// status, both spellings of every URL; (3) query strings as written and (4)
+// letter-case spellings of required header values.
 func engineTargeted(r *runner) {
 	for _, sl := range statusListSets(r.o.Scale(5, 14, 14)) {
 		runEngineCase(r, sl, statusTxns([]string{"a/b", "a/b/c"}, false))
 	}
 	for _, pats := range letterCaseSets(r.o.Scale(6, 100, 100)) {
 		runEngineCase(r, mkFlows(pats, nil), txnsFor(letterCaseURLs(pats), false))
+	}
+	// query strings as written (malformed sibling pairs) and header-value letter
+	// case through Stream.ExecuteFlow (the model gets the harness-decoded parameters)
+	for i, fs := range rawQuerySets() {
+		if i < r.o.Scale(2, 4, 4) {
+			runEngineCase(r, fs, rawQueryTxns([]string{"a/b"}, r.o.Scale(34, 100, 100)))
+		}
+	}
+	for i, fs := range headerCaseSets() {
+		if i < r.o.Scale(1, 3, 3) {
+			runEngineCase(r, fs, headerCaseTxns([]string{"a/b"}))
+		}
 	}
 }
 
